@@ -90,6 +90,19 @@ def pairsOf (j : Json) (k : String) : Except String (List (Str × Str)) := do
     let a ← e.getArr?
     pure ((← (a[0]?.getD Json.null).getStr?).toList, (← (a[1]?.getD Json.null).getStr?).toList))
 
+def natsOf (j : Json) (k : String) : Except String (List Nat) := do
+  (← arrOf j k).mapM (fun e => e.getNat?)
+
+def boolsOf (j : Json) (k : String) : Except String (List Bool) := do
+  (← arrOf j k).mapM (fun e => e.getBool?)
+
+def inodeOf (j : Json) : Except String INode := do
+  let kind ← match (← (← j.getObjVal? "kind").getStr?) with
+    | "alias" => pure IKind.alias
+    | "callable" => pure IKind.callable
+    | _ => pure IKind.other
+  pure ⟨kind, ← boolOf j "skip", ← boolOf j "ok", ← natsOf j "refs"⟩
+
 def handle (op : String) : Option Handler :=
   match op with
   | "c16.strle" => some fun j => do
@@ -131,6 +144,13 @@ def handle (op : String) : Option Handler :=
       let roots ← strListOf j "roots"
       let fuel ← natOf j "fuel"
       pure (jstrs (roots.foldl (fun acc r => if acc.contains r then acc else parseInclude iter fuel acc r) []))
+  | "c16.fixpoint" => some fun j => do
+      let nodes ← (← arrOf j "nodes").mapM inodeOf
+      let tf ← boolsOf j "tf"
+      let ord ← natsOf j "ord"
+      let r := loopI nodes ord (cntI tf + 1) tf
+      pure (Json.mkObj [("tf", Json.arr (r.map Json.bool).toArray), ("stable", Json.bool (stableI nodes r)),
+                        ("one_round", Json.arr ((roundI nodes ord tf).map Json.bool).toArray)])
   | "c16.resolve" => some fun j => do
       let deps ← (← arrOf j "deps").mapM depOf
       pure (jopt jstr (resolveCtype deps (← strOf j "ident")))
